@@ -6,7 +6,16 @@ import math
 from libc.stdlib cimport abort, malloc, free
 from libc.stdio cimport fopen, fread, fclose, FILE
 
-from error_codes cimport ErrorCode, NO_ERROR, MAGIC_NUMBER_DOES_NOT_MATCH, VERSION_NUMBER_DOES_NOT_MATCH, INITIAL_ERROR_CODE, ERROR_CODES
+from error_codes cimport ErrorCode, NO_ERROR, MAGIC_NUMBER_DOES_NOT_MATCH, VERSION_NUMBER_DOES_NOT_MATCH, INITIAL_ERROR_CODE
+
+# a Python object cannot be cimported from error_codes.pxd
+ERROR_CODES = """
+    NO_ERROR = 0
+    MAGIC_NUMBER_DOES_NOT_MATCH = 1
+    VERSION_NUMBER_DOES_NOT_MATCH = 2
+    INITIAL_ERROR_CODE = 3
+    ONLY_ONE_OUTCOME_PER_EVENT = 7
+    """
 
 
 cdef unsigned int MAGIC_NUMBER = 14159265
